@@ -179,6 +179,32 @@ func main() {
 	defer r.Finish()
 	logging.SetLogger(capLog)
 	_, _ = httpx.Cert()
+	if r.Phase == "dialer" {
+		if r.Replay != "" {
+			var c dialerCase
+			if err := r.ReplayCase(&c); err != nil {
+				fmt.Println("replay:", err)
+				return
+			}
+			for i := 0; i < 5 && r.Violations() == 0; i++ {
+				runDialerCase(r, c)
+			}
+			return
+		}
+		n := r.N(240, 4800)
+		for i := 0; i < n; i++ {
+			if !r.Mine(i) {
+				continue
+			}
+			c := genDialer(r, i)
+			r.Begin(c)
+			runDialerCase(r, c)
+			if i < 2 {
+				r.Sample(c)
+			}
+		}
+		return
+	}
 	if r.Replay != "" {
 		var c caseT
 		if err := r.ReplayCase(&c); err != nil {
